@@ -18,6 +18,9 @@ type scanner struct {
 	negative bool
 }
 
+// maxExponent the largest absolute value of an exponent which is accepted.
+const maxExponent = 100000
+
 func newScanner() *scanner {
 	s := &scanner{}
 	s.stateFn = s.stateOnSearchStart
@@ -73,6 +76,11 @@ func (s *scanner) setExp(value bytes.Bytes) error {
 	exp, err := value[s.expBegin:].ParseInt()
 	if err != nil {
 		return err
+	}
+	if exp > maxExponent || exp < -maxExponent {
+		// The number is expanded into a digit string: an exponent like 1e9999999999
+		// would make a dozen bytes of input allocate gigabytes.
+		return fmt.Errorf("Incorrect number value %q: exponent is out of range", value.String())
 	}
 	// example with negative exp: 12.34E-1 = 1.234; exp = -1; intLen = 2 + (-1) = 1
 	// example with positive exp: 12.34E+1 = 123.4; exp =  1; intLen = 2 + 1    = 3
